@@ -518,6 +518,8 @@ func c21Damaged(r *verifkit.Run, w *verifkit.Worker, idx int, cuts int) {
 
 // c21Concurrent: getters race with one writer; every value a getter sees must be the value
 // of that string; accounting must be exact once everything has stopped.
+const c21HotKeys = 4
+
 func c21Concurrent(r *verifkit.Run, round int, getters, opsPerGetter, writerOps int) {
 	rnd := r.Rand(fmt.Sprintf("conc/%d", round))
 	var buf []byte
@@ -534,6 +536,14 @@ func c21Concurrent(r *verifkit.Run, round int, getters, opsPerGetter, writerOps 
 	}
 	var now atomic.Uint32
 	now.Store(2_000_000)
+	hotBatch := func() []MappingPair {
+		var b []MappingPair
+		for _, s := range universe[:c21HotKeys] {
+			b = append(b, MappingPair{Str: s, Value: c21Val(s)})
+		}
+		return b
+	}
+	c.AddValues(now.Load(), hotBatch())
 	var wg sync.WaitGroup
 	var wrong, hits, misses atomic.Int64
 	var firstWrong atomic.Value
@@ -545,10 +555,20 @@ func c21Concurrent(r *verifkit.Run, round int, getters, opsPerGetter, writerOps 
 			defer wg.Done()
 			<-start
 			for i := 0; i < opsPerGetter; i++ {
+				// most lookups hammer a handful of hot keys (two lookups of the SAME key racing through
+				// the RLock check / TryLock section is the window that matters for access-time
+				// accounting), and the virtual clock advances every few calls so that the stored
+				// access time is almost always older than the one of the lookup
 				s := universe[grnd.IntN(len(universe))]
+				if grnd.IntN(4) != 0 {
+					s = universe[grnd.IntN(c21HotKeys)]
+				}
+				if i%3 == 0 {
+					now.Add(1)
+				}
 				var v int32
 				var ok bool
-				ts := now.Load() + uint32(grnd.IntN(4)) // clocks of callers differ a little: access times get refreshed often
+				ts := now.Load() + uint32(grnd.IntN(4)) // clocks of callers differ a little
 				if grnd.IntN(2) == 0 {
 					v, ok = c.GetValue(ts, s)
 				} else {
@@ -579,6 +599,8 @@ func c21Concurrent(r *verifkit.Run, round int, getters, opsPerGetter, writerOps 
 		<-start
 		for i := 0; i < writerOps; i++ {
 			switch x := rnd.IntN(20); {
+			case x < 3: // keep the hot keys present (a no-op for those still cached)
+				c.AddValues(now.Load(), hotBatch())
 			case x < 12:
 				seen := map[string]bool{}
 				var batch []MappingPair
@@ -697,6 +719,10 @@ func TestVerifC21(t *testing.T) {
 			r.NotJudged("batch_repeats_a_string_double_counts_sumSize", 1)
 		}
 	}
+	// the same concurrent rounds without the race detector (tighter interleavings)
+	for i := 0; i < r.N(150, 1500); i++ {
+		c21Concurrent(r, 100000+i, 8, 1500, 400)
+	}
 	nd := r.N(3, 40)
 	r.Parallel(min(nd, 8), "damaged", func(w *verifkit.Worker) {
 		for i := w.Index; i < nd; i += min(nd, 8) {
@@ -709,9 +735,9 @@ func TestVerifC21(t *testing.T) {
 func TestVerifC21Race(t *testing.T) {
 	r := verifkit.Start(t, "C21", "pcache_race")
 	defer r.Finish()
-	r.SetRule("one case = one round of 6 getter goroutines (GetValue/GetValueBytes on 150 strings, advancing clock) against one writer goroutine (AddValues / RemoveByTTL / SetSizeTTL / Save / Stats) on a cache near its size limit, built with -race; every value a getter sees is compared with the value of that string, accounting is recomputed after the round, the image saved during the round is reloaded; non-trivial = hits and misses both seen.")
+	r.SetRule("one case = one round of 8 getter goroutines (GetValue/GetValueBytes, 3 of 4 lookups on 4 hot keys, the rest on 150 strings, virtual clock advancing every third call) against one writer goroutine (AddValues / RemoveByTTL / SetSizeTTL / Save / Stats) on a cache near its size limit, built with -race; every value a getter sees is compared with the value of that string, accounting is recomputed after the round, the image saved during the round is reloaded; non-trivial = hits and misses both seen.")
 	rounds := r.N(150, 1500)
 	for i := 0; i < rounds; i++ {
-		c21Concurrent(r, i, 6, 1500, 600)
+		c21Concurrent(r, i, 8, 1500, 400)
 	}
 }
